@@ -92,7 +92,9 @@ class ProcessWorker(Worker):
         else:
             try:
                 self._ctrl_comms.parent_end.put('terminate')
-                self._ctrl_comms.parent_end.get()
+                # the child's control thread might be unable to run (e.g. the child is stuck in C code), do not wait for it forever
+                if self._ctrl_comms.parent_end.poll(timeout):
+                    self._ctrl_comms.parent_end.get()
             except (BrokenPipeError, queue.Empty):
                 pass
 
